@@ -41,7 +41,9 @@ CELL_IMPORT = {"op": "cell", "act": "run", "text": "zz_v = b64decode('aGk=')\nde
 CELL_PLAIN = {"op": "cell", "act": "run", "text": "zz_w = 41 + 1", "names": [], "del": False}
 CELL_COMPLETE = {"op": "cell", "act": "cglobal", "text": "b64d", "names": [], "del": False}
 # a name known only through pyflyby.add_import() (the session-local database)
-CELL_REG = {"op": "cell", "act": "run", "text": "zz_q = zz_reg + 1\ndel zz_reg", "names": [["reg", "zz_reg"]], "del": True}
+# (the cell forgets the module too, so that every use needs pyflyby's in-memory module finder again)
+CELL_REG = {"op": "cell", "act": "run", "names": [["reg", "zz_reg"]], "del": True,
+            "text": "zz_q = zz_reg + 1\ndel zz_reg\nimport sys as zz_sys\nzz_sys.modules.pop('pyflyby_autoimport_zz_reg', None)\ndel zz_sys"}
 # a known import whose module raises when imported: a failing import is not an internal error
 CELL_BAD = {"op": "cell", "act": "run", "text": "zz_b = badname", "names": [["bad", "badname"]], "del": False}
 # %run of a valid PEP 263 latin-1 script: pyflyby's own (UTF-8) read of it fails, which is the user's file's business
@@ -65,8 +67,11 @@ def gen_cases(ctx, n):
             ops = [{"op": r.choice(["LoadExt", "Enable", "LoadFn"])}, {"op": r.choice(["UnloadExt", "Disable", "UnloadFn"])}] * 3
             ops = ops[:6]
         elif i % 7 == 5:        # registered names across off/on cycles
+            # off/on cycles through the extension path, the direct API path, and MIXED (unload_ext then the API enable, ...)
             cyc = r.choice([[{"op": "Disable"}, {"op": "Enable"}], [{"op": "UnloadExt"}, {"op": "LoadExt"}], [{"op": "ReloadExt"}],
-                            [{"op": "UnloadFn"}, {"op": "LoadFn"}]])
+                            [{"op": "UnloadFn"}, {"op": "LoadFn"}], [{"op": "UnloadExt"}, {"op": "Enable"}],
+                            [{"op": "UnloadFn"}, {"op": "Enable"}], [{"op": "Disable"}, {"op": "LoadFn"}],
+                            [{"op": "UnloadExt"}, {"op": "EnableAgain"}], [{"op": "UnloadExt"}, {"op": "Enable"}]])
             ops = [{"op": r.choice(["LoadExt", "LoadFn"])}, {"op": "AddImport"}] + cyc + [CELL_REG] + \
                   ([r.choice(alphabet)] if r.random() < .5 else []) + [CELL_REG]
         else:
@@ -90,7 +95,9 @@ def gen_cases(ctx, n):
                 ops = [r.choice([{"op": "Enable"}, CELL_IMPORT, CELL_IMPORT, {"op": "Disable"}])] + ops[:5]
         jedi = (i % 10 == 9)    # the environment of F14
         level = "DEBUG" if (i % 25 == 24) else "ERROR"
-        cases.append({"kind": "seq", "i": i, "ops": pre + ops + [{"op": "Disable"}], "jedi": jedi, "level": level,
+        # process-level dispositions an application may have installed before pyflyby is first loaded
+        signals = ["sigterm_handler", "sigterm_ign", "sigint_handler", "sigquit_ign", "faulthandler"][(i // 3) % 5] if i % 3 == 0 else None
+        cases.append({"kind": "seq", "i": i, "ops": pre + ops + [{"op": "Disable"}], "jedi": jedi, "level": level, "signals": signals,
                       "preshell": bool(pre), "db_broken_at_start": db_broken})
     return cases
 
@@ -335,7 +342,8 @@ def canon_impl(impl, case=None):
             if esc is None and o is not None and c.get("error") is not None:
                 # run_cell reports an exception that left a hook as the cell's error
                 injected = {REAL_CLASS.get(f[1], f[1]) for f in o.get("faults", [])} | ({case.get("bad_exc")} if case else set()) | {"StrFailure"}
-                if c["error"] in injected and c["error"] != "NameError":
+                # (an injected NameError is told from the cell's own NameError by its message)
+                if c["error"] in injected and (c["error"] != "NameError" or c.get("error_injected")):
                     esc = c["error"]
             co = {"path": c["pf_calls"] > 0, "escaped": esc}
             if c["act"] in ("run", "runfile", "prun"):
@@ -498,6 +506,20 @@ def oracle(case, impl, ref):
                         "history says %s" % (k, name, "/" + o["act"] + ("/" + o["script"] if o.get("script") else "") if name == "cell" else "",
                                              "on" if got_on else "off", s["st"], s["errored"], "on" if want_on else "off")))
             break
+    # reversibility presupposes that the operations themselves work: none of them may raise (an exception out of
+    # %load_ext after the hooks are in leaves them patched with IPython believing the extension is not loaded)
+    for k, (o, ent) in enumerate(zip(case["ops"], tr[1:]), 1):
+        if o["op"] in OPS + ["Initialize"] and "escaped" in ent and case.get("level") != "DEBUG":
+            bad.append(("operation_must_not_raise", "step %d (%s): %s: %s (state now %s, extension recorded as loaded: %s, "
+                        "process dispositions: %s)" % (k, o["op"], ent["escaped"], ent.get("escaped_msg"), ent["snap"]["st"],
+                                                      ent["snap"]["loaded"], case.get("signals"))))
+    # while a name is registered and the importer is ENABLED, pyflyby's in-memory module finder is on sys.meta_path
+    for k, ent in enumerate(tr):
+        s = ent["snap"]
+        if s.get("registered") and s["st"] == "ENABLED" and not s.get("dynimp_finder"):
+            bad.append(("registered_kept", "step %d: ENABLED with %r registered through add_import(), but pyflyby's module finder "
+                        "is not on sys.meta_path" % (k, s["registered"])))
+            break
     # names registered with add_import() stay known across every off/on cycle
     reg_ok = False
     for k, (o, ent) in enumerate(zip(case["ops"], tr[1:]), 1):
@@ -587,6 +609,8 @@ def evaluate(ctx, cases, results):
             ctx.bump("op:" + (o["op"] if o["op"] != "cell" else "cell/" + o["act"]))
         if c.get("jedi"):
             ctx.bump("env:jedi")
+        if c.get("signals"):
+            ctx.bump("env:signals:" + c["signals"])
         if c.get("level") == "DEBUG":
             ctx.bump("env:debug")
         if any(e["snap"]["errored"] for e in impl["trace"]):
